@@ -77,7 +77,15 @@ def stats(cases, obs):
 
 
 def rand_sched(rng):
-    return [rng.weighted([(4, f"s:{rng.range(1, 4)}"), (2, "i"), (1, f"s:{rng.range(5, 40)}")]) for _ in range(rng.below(12))]
+    out = []
+    for _ in range(rng.below(12)):
+        k = rng.weighted([(4, f"s:{rng.range(1, 4)}"), (2, "i"), (1, f"s:{rng.range(5, 40)}"), (1, "burst")])
+        if k == "burst":
+            # a run of EINTR long enough to exhaust any small retry budget (the refill retries without bound)
+            out += ["i"] * rng.choice([5, 7, 8, 9, 15, 16, 17, 33, 70])
+        else:
+            out.append(k)
+    return out
 
 
 def rand_stream(rng, n):
@@ -114,6 +122,13 @@ def generate(rng, n, tier, pid):
                     if tier == "quick" and ln >= 4 and k % 2:
                         continue
                     out.append(f"{bs} rem{rem} {hexs(list(s))}")
+    # EINTR bursts starting at every read call of a short stream with a carried byte (FE at a block end, or one
+    # byte left after a sentinel)
+    for s in ([0x61, 0x62, FE, FD, 0x63, 0x64], [FE, FD, 0x61, FE, FD, FE], [0x61, FE, FE, FD, FD, FE, FD]):
+        for bs in (1, 2, 3):
+            for start in range(0, 5):
+                for burst in ((7, 8, 16) if tier == "quick" else (3, 6, 7, 8, 9, 15, 16, 17, 40)):
+                    out.append(f"{bs} none {hexs(s)} " + " ".join(["f"] * start + ["i"] * burst))
     for _ in range(n):
         bs = rng.weighted([(3, rng.below(6)), (2, rng.range(6, 70)), (1, 4096), (1, 524288)])
         s = rand_stream(rng, rng.weighted([(3, rng.below(30)), (2, rng.below(300)), (1, rng.below(1500))]))
